@@ -381,12 +381,59 @@ func c12r3(c *Ctx) {
 					c.OK(rule, FuncName(fn), construct, c.P.InstrPos(call), "hex-encoded element")
 				case fn.Name() == "SetLast" || fn.Name() == "Func" || fn.Name() == "Function":
 					c.Triv(rule, FuncName(fn), construct, c.P.InstrPos(call), "raw by contract")
+				case hexAtCallSites(c.P, fn, call.Call.Args[1]):
+					c.OK(rule, FuncName(fn), construct, c.P.InstrPos(call), "a shared append helper: every caller hands it a hex-encoded element (or is the documented raw setter)")
 				default:
 					c.Fail(rule, "violation", FuncName(fn), construct, c.P.InstrPos(call), "the builder stores an element that is not hex-encoded: the parser's hex decoder will reject or misread it")
 				}
 			}
 		}
 	}
+}
+
+// hexAtCallSites: fn is an unexported helper that appends its own parameter; every call site passes a hex-encoded value, or
+// lies in one of the builder's raw-by-contract methods.
+func hexAtCallSites(p *Prog, fn *ssa.Function, appended ssa.Value) bool {
+	if isExportedAPI(fn) || len(p.Callers[fn]) == 0 {
+		return false
+	}
+	// the single element of the appended literal must be a parameter of fn
+	var par *ssa.Parameter
+	if sl, ok := appended.(*ssa.Slice); ok {
+		if al, ok := sl.X.(*ssa.Alloc); ok && al.Referrers() != nil {
+			for _, r := range *al.Referrers() {
+				if ia, ok := r.(*ssa.IndexAddr); ok && ia.Referrers() != nil {
+					for _, rr := range *ia.Referrers() {
+						if st, ok := rr.(*ssa.Store); ok {
+							q, isPar := st.Val.(*ssa.Parameter)
+							if !isPar || (par != nil && par != q) {
+								return false
+							}
+							par = q
+						}
+					}
+				}
+			}
+		}
+	}
+	if par == nil {
+		return false
+	}
+	for _, cs := range p.Callers[fn] {
+		caller := cs.Parent()
+		if !p.Src(caller) {
+			continue
+		}
+		if n := caller.Name(); n == "SetLast" || n == "Func" || n == "Function" {
+			continue
+		}
+		sub := p.Env(caller).Sub(cs, fn)
+		a, pe := sub.actual(par)
+		if a == nil || !isHexValue(pe, a, 0) {
+			return false
+		}
+	}
+	return true
 }
 
 // appendedHex: v is a one-element []string literal whose element is a hex.EncodeToString result (possibly via a local helper).
